@@ -10,7 +10,8 @@ EXPLANATION = ("static analysis; equality of graphs after a round trip is not cl
                "replays '+' as add_interaction(u, v, t) and '-' at s as add_interaction(u, v, <instant of the last run>, "
                "e=s) exactly when s lies after the last end; writer/reader/parser tables agree (columns u v op t, exactly "
                "4 fields, comment/strip/split order, conversions, rank map, decorator modes, delimiter and encoding flow); "
-               "stream_interactions itself is decided under C05")
+               "stream_interactions itself is decided under C05"
+               ";  whole event logs (reciprocal, interleaved and nested runs; undirected logs also with the '-' rows in the other orientation; an instant tested for truth also placed at the literal 0) are read back to exactly the presence they describe; file assembly (row counts sized from the writer's constants, one encoder) and decoding (one stream, then lines) as C09; make_str(x) == str(x); no state shared between calls (P7)")
 
 
 def run(repo: Repo, tier, rep: Report):
